@@ -44,6 +44,9 @@ func NewSparseConstInt64Vector(indices []int, values []int64, n int) SparseConst
   if len(indices) != len(values) {
     panic("invalid number of indices")
   }
+  // sort and filter copies, the arguments are left untouched
+  indices = append([]int{}, indices...)
+  values = append([]int64{}, values...)
   sort.Sort(sortIntConstInt64{indices, values})
   r := nilSparseConstInt64Vector(n)
   r.indices = indices[0:0]
